@@ -1703,6 +1703,40 @@ M('C03', 'ag2-blocksize-table-missing-cast5', CO, '        return self.cipher.bl
 M('C03', 'ag2-select-short-keyid', PGP, '                     and pk.pkalg == self.key_algorithm and pk.encrypter == self.fingerprint.keyid)',
   '                     and pk.pkalg == self.key_algorithm and pk.encrypter[-8:] == self.fingerprint.keyid[-8:])', 'C03.8')
 
+# ---- wave 2 (held-out seeded mutants) and their kin: split try blocks, tolerated-exception lists, copies where identity matters,
+#      state copied instead of shared, reordered hash input, caches
+TRY1 = ("            try:\n                symalg, key = skesk.decrypt_sk(passphrase)\n                decmsg = PGPMessage()\n                decmsg.parse(self.message.decrypt(key, symalg))\n\n"
+        "            except (TypeError, ValueError, NotImplementedError, PGPDecryptionError):\n                continue\n")
+M('C03', 'decrypt-try-split-second-step-narrower', PGP, TRY1,
+  "            try:\n                symalg, key = skesk.decrypt_sk(passphrase)\n\n            except (TypeError, ValueError, NotImplementedError):\n                continue\n\n"
+  "            try:\n                decmsg = PGPMessage()\n                decmsg.parse(self.message.decrypt(key, symalg))\n\n            except (TypeError, ValueError, PGPDecryptionError):\n                continue\n", 'C03.8')
+M('C03', 'decrypt-try-covers-first-step-only', PGP, TRY1 + "\n            else:\n                del passphrase\n                break\n",
+  "            try:\n                symalg, key = skesk.decrypt_sk(passphrase)\n\n            except (TypeError, ValueError, NotImplementedError, PGPDecryptionError):\n                continue\n\n"
+  "            decmsg = PGPMessage()\n            decmsg.parse(self.message.decrypt(key, symalg))\n            del passphrase\n            break\n", 'C03.8')
+M('C03', 'decrypt-valueerror-no-longer-tolerated', PGP, "            except (TypeError, ValueError, NotImplementedError, PGPDecryptionError):\n                continue\n\n            else:\n                del passphrase",
+  "            except (TypeError, NotImplementedError, PGPDecryptionError):\n                continue\n\n            else:\n                del passphrase", 'C03.8')
+M('C03', 'decrypt-failure-reraised-as-decryption-error', PGP, "            except (TypeError, ValueError, NotImplementedError, PGPDecryptionError):\n                continue\n\n            else:\n                del passphrase",
+  "            except (TypeError, ValueError, NotImplementedError):\n                continue\n\n            except PGPDecryptionError:\n                raise\n\n            else:\n                del passphrase", 'C03.8')
+T('C03', 'twin-decrypt-try-split-same-tolerance', PGP, TRY1,
+  "            wrong_candidate = (TypeError, ValueError, NotImplementedError, PGPDecryptionError)\n            try:\n                symalg, key = skesk.decrypt_sk(passphrase)\n\n            except wrong_candidate:\n                continue\n\n"
+  "            try:\n                decmsg = PGPMessage()\n                decmsg.parse(self.message.decrypt(key, symalg))\n\n            except Exception:\n                continue\n")
+M('C03', 'key-encrypt-readdress-on-a-copy', PGP, "        if message.is_encrypted:  # pragma: no cover\n            _m = message\n", "        if message.is_encrypted:  # pragma: no cover\n            _m = copy.copy(message)\n", 'C03.7')
+M('C03', 'msg-encrypt-readdress-attaches-a-copy', PGP, "        else:\n            msg |= self\n\n        return msg\n\n    def decrypt(self, passphrase):", "        else:\n            msg |= copy.copy(self)\n\n        return msg\n\n    def decrypt(self, passphrase):", 'C03.7')
+M('C03', 'msg-encrypt-skesk-copy-gets-the-key', PGP, "        skesk.encrypt_sk(passphrase, sessionkey)\n        del passphrase\n\n        msg = PGPMessage() | skesk", "        copy.copy(skesk).encrypt_sk(passphrase, sessionkey)\n        del passphrase\n\n        msg = PGPMessage() | skesk", 'C03.7')
+M('C03', 'seipd-mdc-hash-trailer-first', PK, "        mdc.mdc = binascii.hexlify(hashlib.new('SHA1', data + b'\\xd3\\x14').digest())", "        _h = hashlib.new('SHA1', b'\\xd3\\x14')\n        _h.update(data)\n        mdc.mdc = binascii.hexlify(_h.digest())", 'C03.2')
+M('C03', 'seipd-mdc-hash-forked-before-prefix', PK, "        iv = alg.gen_iv()\n        data = iv + iv[-2:] + data\n\n        mdc = MDC()\n        mdc.mdc = binascii.hexlify(hashlib.new('SHA1', data + b'\\xd3\\x14').digest())",
+  "        iv = alg.gen_iv()\n        _base = hashlib.new('SHA1', data)\n        data = iv + iv[-2:] + data\n\n        mdc = MDC()\n        _h = _base.copy()\n        _h.update(iv + iv[-2:] + b'\\xd3\\x14')\n        mdc.mdc = binascii.hexlify(_h.digest())", 'C03.2')
+T('C03', 'twin-seipd-mdc-hash-forked-state', PK, "        mdc.mdc = binascii.hexlify(hashlib.new('SHA1', data + b'\\xd3\\x14').digest())", "        _base = hashlib.new('SHA1', data)\n        _h = _base.copy()\n        _h.update(b'\\xd3\\x14')\n        mdc.mdc = binascii.hexlify(_h.digest())")
+M('C03', 'kdf-param-cached-per-curve', FL, "        ckdf = ConcatKDFHash(algorithm=getattr(hashes, self.halg.name)(), length=self.encalg.key_size // 8, otherinfo=bytes(data), backend=default_backend())",
+  "        data = self.__dict__.setdefault('_param_cache', {}).setdefault(curve, bytes(data))\n        ckdf = ConcatKDFHash(algorithm=getattr(hashes, self.halg.name)(), length=self.encalg.key_size // 8, otherinfo=data, backend=default_backend())", 'C03.5')
+M('C13', 'keyblob-protection-state-taken-over', FL, "    def encrypt_keyblob(self, passphrase, enc_alg, hash_alg):\n        # PGPy will only ever use iterated and salted S2k mode\n        self.s2k.usage = 254",
+  "    def encrypt_keyblob(self, passphrase, enc_alg, hash_alg, reuse=None):\n        # PGPy will only ever use iterated and salted S2k mode\n        self.s2k.usage = 254", 'C13.2',
+  more=[(FL, "        self.s2k.iv = enc_alg.gen_iv()\n        self.s2k.halg = hash_alg\n        self.s2k.salt = bytearray(os.urandom(8))\n", "        self.s2k.iv = enc_alg.gen_iv() if reuse is None else reuse.iv\n        self.s2k.halg = hash_alg\n        self.s2k.salt = bytearray(os.urandom(8)) if reuse is None else reuse.salt\n"),
+        (PK, "        self.keymaterial.encrypt_keyblob(passphrase, enc_alg, hash_alg)\n", "        self.keymaterial.encrypt_keyblob(passphrase, enc_alg, hash_alg, getattr(self, '_protect_like', None))\n")])
+M('C13', 'session-key-cached-per-message', PGP, "        if sessionkey is None:\n            sessionkey = cipher_algo.gen_key()\n\n        # set up a new PKESessionKeyV3",
+  "        if sessionkey is None:\n            sessionkey = message.__dict__.setdefault('_sk', cipher_algo.gen_key())\n\n        # set up a new PKESessionKeyV3", 'C13.2')
+M('C13', 'skesk-salt-shared-with-copy', PK, "        self.s2k.salt = bytearray(os.urandom(8))\n        esk = self.s2k.derive_key(passphrase)", "        self.s2k = copy.copy(self.s2k)\n        self.s2k.salt = self.s2k.salt or bytearray(os.urandom(8))\n        esk = self.s2k.derive_key(passphrase)", 'C13.2')
+
 # =============================================================================================== C02
 M('C02', 'hash2-last-two', PGP, "        sig._signature.hash2 = bytearray(h2.digest()[:2])", "        sig._signature.hash2 = bytearray(h2.digest()[-2:])", 'C02.2')
 M('C02', 'signer-hashdata-none', PGP, "        _sig = self._key.sign(sigdata, getattr(hashes, sig.hash_algorithm.name)())", "        _sig = self._key.sign(sig.hashdata(None), getattr(hashes, sig.hash_algorithm.name)())", 'C02.2')
